@@ -183,6 +183,12 @@ func (c *Crew) SetMachine(ctx context.Context, mid string, src *crew.SpecSource,
 	if ch, pending := c.changed[mid]; pending {
 		// The machine exists (again): A deletion that hasn't
 		// been reported yet doesn't stand anymore.
+		if ch.Deleted && !have {
+			// What is stored for this id belongs to the
+			// machine that was deleted, so the new machine's
+			// state has to be reported.
+			ch.State = m.State
+		}
 		ch.Deleted = false
 	}
 
